@@ -43,3 +43,8 @@ check("C14", "exploration",
       "Tens of thousands of PRNG histories of negotiate / authenticate / garbage messages over 1-4 session ids, 4 user databases, with wrong passwords, unknown and empty-password users, case variants, responses for another session's or an older challenge, replays, bit flips in NTProofStr and blob, LM-only and NTLMv1 responses and name swaps; Authenticated is allowed only where the driver built the message from the configured password over the session's latest challenge, and required directly after a negotiate.",
       "trusted: the lab's NTLMv2 implementation (cross-checked against the verifier by a unit test), PAM stand-in irrelevant here; sessions of one history are sequential",
       "DESIGN.md 4 C14")
+check("C10", "exploration",
+      "runtime monitoring: process-exit / stderr fault-signature monitors on the real rdpgw and rdpgw-auth (race + checkptr build) under structured hostile input, liveness probe per batch with per-input replay on a fresh process",
+      "Six (thorough: ten) configurations of {TLS, socket buffers, openid / ntlm with the real rdpgw-auth / local+kerberos} each receive thousands of hostile inputs (packet headers and bodies at every phase before and after authentication, websocket frame abuse, legacy channel orderings and chunk syntax, raw HTTP, every Authorization prefix, NTLM messages with hostile security buffers, KDC-proxy DER mutations, mutated SPNEGO tokens); any panic (also one recovered by net/http or by the service), fatal error, exit or failed liveness probe is a violation and is attributed to a single input by replaying the batch one by one. 100k (2M) mutated NTLM messages additionally go through the verifier in-process.",
+      "trusted: PAM stand-in library, forged Kerberos tickets, fake IdP; the input space is sampled by structure, not enumerated; race reports under duplicate-channel abuse are recorded, not judged",
+      "DESIGN.md 4 C10")
